@@ -1173,6 +1173,7 @@ static int mode_total(Args &args, Result &total)
     return t;
   };
 
+  if (args.kv["only"] == "tokens") nmut = 0;   // development aid
   unsigned long const ncases = nstrings + nmut;
   total.notes.push_back("token strings: all strings over 15 tokens (11 words/braces/newlines + '#', tab, NUL, 0x80) up to length " +
                         std::to_string(L - 1) + " (" + std::to_string(nfull) + ") and all strings of length " + std::to_string(L) +
@@ -1797,6 +1798,25 @@ int main(int argc, char **argv)
   else if (mode == "total") rc = mode_total(args, total);
   else if (mode == "strict") rc = mode_strict(args, total);
   else if (mode == "layout") rc = mode_layout(args, total);
+  else if (mode == "bench") {
+    if (chdir(g_corpus_dir.c_str()) != 0) return 2;
+    double t0 = now();
+    for (int i = 0; i < 2000; i++) { c09proxy *px = make_px(); delete px; }
+    double t1 = now();
+    for (int i = 0; i < 2000; i++) { c09proxy *px = make_px(); px->config("colvar {\n name 1\n}\n"); delete px; }
+    double t2 = now();
+    c09proxy *px = make_px();
+    for (int i = 0; i < 2000; i++) { px->config("colvar {\n name 1\n}\n"); }
+    double t3 = now();
+    delete px;
+    std::string big;
+    read_file("distance-grid_abf/test.in", big);
+    for (int i = 0; i < 500; i++) { c09proxy *px = make_px(); px->config(big); delete px; }
+    double t4 = now();
+    printf("construct+destroy %.1f us; +parse small %.1f us; parse small on live module %.1f us; abf file fresh %.1f us\n",
+           (t1 - t0) / 2000 * 1e6, (t2 - t1) / 2000 * 1e6, (t3 - t2) / 2000 * 1e6, (t4 - t3) / 500 * 1e6);
+    return 0;
+  }
   else if (mode == "dump") {
     // development aid: print every rewrite of one corpus file
     std::vector<CorpusFile> C;
